@@ -9,7 +9,7 @@ use in_toto::models::supply_chain_item::SupplyChainItem;
 use in_toto::models::{verif_hooks, LinkMetadata};
 use serde_json::{json, Value};
 
-use crate::util::{clip, guarded, hex, unhex};
+use crate::util::{clip, guarded, hex, unhex, via_text};
 
 /// {texts: [json text...]} -> [{ok: hex}|{err}|{parse_err}|{panic}]
 pub fn canon(case: &Value) -> Value {
@@ -39,19 +39,19 @@ pub fn canon(case: &Value) -> Value {
 pub fn rules(case: &Value) -> Value {
     let item: Box<dyn SupplyChainItem> = match case["kind"].as_str() {
         Some("inspection") => {
-            match serde_json::from_value::<Inspection>(case["item"].clone()) {
+            match via_text::<Inspection>(&case["item"]) {
                 Ok(i) => Box::new(i),
                 Err(e) => return json!({"item_err": e.to_string()}),
             }
         }
-        _ => match serde_json::from_value::<Step>(case["item"].clone()) {
+        _ => match via_text::<Step>(&case["item"]) {
             Ok(s) => Box::new(s),
             Err(e) => return json!({"item_err": e.to_string()}),
         },
     };
     let mut links: HashMap<String, LinkMetadata> = HashMap::new();
     for (name, l) in case["links"].as_object().unwrap() {
-        match serde_json::from_value::<LinkMetadata>(l.clone()) {
+        match via_text::<LinkMetadata>(l) {
             Ok(lm) => {
                 links.insert(name.clone(), lm);
             }
